@@ -19,5 +19,6 @@ mcSetup == << [op |-> "CreateTopic", name |-> "t1"], [op |-> "CreateTopic", name
 mcMsgKinds == { [key |-> "", attrs |-> <<>>], [key |-> "", attrs |-> [a |-> "x"]] }
 mcPrefixPairs == {<<"x", "">>, <<"x", "x">>}
 mcWeights == [op \in {} |-> 1]
+mcProjOfName == <<>>
 mcOps == {"Publish", "Pull", "Ack", "ModAck", "Nack", "DLSweep", "DeleteSub", "Tick"}
 =============================================================================
